@@ -154,8 +154,12 @@ rf_wavheader_format_t rf_wavheader_get_format(rf_wavheader_t *wh)
 void rf_wavheader_init(rf_wavheader_t *wh, int sfreq, int num_channels,
 		rf_wavheader_format_t format)
 {
+	memset(wh, 0, sizeof(*wh));
+
 	memcpy(wh->chunk_id, riff, 4);
-	wh->chunk_size = 12 + 18 + 12 + 8; // chunks: riff, fmt, fact, data
+	// chunks: riff, fmt, fact (floating point only), data
+	wh->chunk_size = (format == RF_WAVHEADER_FLOAT ? 4 + (8 + 18) + 12 + 8 :
+							 4 + (8 + 16) + 8);
 	memcpy(wh->format, wave, 4);
 
 	memcpy(wh->fmt_chunk_id, fmt, 4);
@@ -187,9 +191,10 @@ void rf_wavheader_set_num_frames(rf_wavheader_t *wh, unsigned int num_frames)
 	wh->chunk_size -= wh->data_chunk_size;
 
 	wh->data_chunk_size = num_frames * wh->block_align;
-	// doesn't matter if there is no fact chunk, we'll not emit this if this
-	// chunk is absent
-	wh->sample_length = num_frames * wh->num_channels;
+	// the sample length lives in the fact chunk; without one it is not
+	// emitted so keep it clear (this keeps encode/decode symmetric)
+	if (0 == memcmp(fact, wh->fact_chunk_id, 4))
+		wh->sample_length = num_frames * wh->num_channels;
 	wh->chunk_size += num_frames * wh->block_align;
 }
 
